@@ -138,7 +138,7 @@ Definition ellipse_center (e : Ellipse T) : Point T := to_point (aff_translation
 (** [Affine::svd] (affine.rs 394) as the property needs it: the pinned code computes the minor
     radius as [sqrt(0.5*(s1 - s2))], which is the same real number but cancels catastrophically in
     binary64 for elongated ellipses (finding C10-svd-minor-radius); the repaired code computes
-    [|det| / major] and returns 0 when the major radius is 0. Everything else is [aff_svd] verbatim. *)
+    [min(|det| / major, major)] and returns 0 when the major radius is 0. Everything else is [aff_svd] verbatim. *)
 Definition svd_stable (m : Affine T) : Vec2 T * T :=
   let a := aa m in let a2 := a * a in
   let b := ab m in let b2 := b * b in
@@ -150,7 +150,7 @@ Definition svd_stable (m : Affine T) : Vec2 T * T :=
   let s1 := a2 + b2 + c2 + d2 in
   let s2 := fsqrt (fpowi (a2 - b2 + c2 - d2) 2 + fofZ 4 * fpowi (ab_ + cd_) 2) in
   let x := fsqrt (fhalf * (s1 + s2)) in
-  let y := if x =? f0 then f0 else fabs (a * d - b * c) / x in
+  let y := if x =? f0 then f0 else fmin (fabs (a * d - b * c) / x) x in
   (mkVec2 x y, angle).
 
 Definition ellipse_as_arc (e : Ellipse T) : Arc T :=
